@@ -650,6 +650,15 @@ def run_grid_case(ctx, drv, case):
             if model != impl:
                 ctx.corr_break("C10/knot-selection", case, {"dim": d, "impl": sorted(impl.values())[:6], "model": ans[:300]})
                 ok = False
+            # the refinement-TREE construction (`RTree.ofPoints`, `RTree.grid`) the theorems `collocation_unitriangular`
+            # and `hier_lagrange_solvable` speak about: the point set must be a valid tree and carry the same knots
+            if bd == 1:
+                tans = drv.ask("tk %d %s %s" % (case["p"], vec(xs_all), ",".join(str(int(l)) for l in ls_all)))
+                tmodel = {t.split(":")[0]: t for t in tans.split(";")} if tans not in ("no-tree", "bad-op") else {}
+                if tmodel != impl:
+                    ctx.corr_break("C10/tree-knot-selection", case, {"dim": d, "impl": sorted(impl.values())[:6], "model": tans[:300]})
+                    ok = False
+                ctx.count("tree_model_compared")
             # level-triangular structure of the collocation matrix (hypothesis of `unitriangular_unique`)
             lev_of = {fs(x): int(l) for x, l in zip(xs_all, ls_all)}
             lv_d = [lev_of[fs(x)] for x in coords_d]
@@ -892,7 +901,10 @@ def run_malformed(ctx, drv):
     if drv.ask("val B:3:0,1,2,3,4,5:2 1/2") != "bad-op" or impl != "rejected":
         ctx.corr_break("C10/malformed-bspline-index", {"kind": "malformed"}, {"impl": impl})
         ok = False
-    for line in ("val", "val X:0,1:0 1", "der L:0,1:0", "hier 1,2", "interp 1 1", "dim 0,1 L:0,1:5", "hk 0 1 0,1 0,0",
+    if drv.ask("tk 2 0,1/4,1/2,1 0,1,2,0") != "no-tree" or drv.ask("tk 2 0,1/2,1 0,2,0") != "no-tree":
+        ctx.corr_break("C10/malformed-tree-accepted", {"kind": "malformed"}, {})
+        ok = False
+    for line in ("val", "val X:0,1:0 1", "tk 0 0,1 0,0", "tk 2 0 0", "der L:0,1:0", "hier 1,2", "interp 1 1", "dim 0,1 L:0,1:5", "hk 0 1 0,1 0,0",
                  "int L:0,1:0 0 1 0,1 2", "colloc 7", "nodes a,b", "val L:0,1/0:0 1"):
         if drv.ask(line) != "bad-op":
             ctx.corr_break("C10/malformed-line-not-rejected", {"kind": "malformed", "line": line}, {})
